@@ -22,6 +22,9 @@ structure SrcInst where
   lastImpl : Option String := none
   /-- an adapter tree with scripted NON-fused leaves (raw answers: end markers may be followed by items), instead of `e` -/
   raw : Option (Sources.RExpr V) := none
+  /-- the source is consumed through an iterator view of the into-iterator bridge: `("skip", n)` answers item `j + n`
+  to pull `j`, `("step", k)` item `j * k` -/
+  view : Option (String × Nat) := none
 
 structure SkInst where
   k : SinkModels.Sk V
